@@ -128,3 +128,18 @@ pub fn is_refused_by_current_redb(path: &Path) -> bool {
     let Ok(rtx) = db.begin_read() else { return true };
     matches!(rtx.open_table(cur::RECORDS), Err(redb::TableError::TableTypeMismatch { .. }))
 }
+
+/// What a user's upgrade looks like to the histories: the (closed, flushed) store file at `path` is
+/// rewritten in the old on-disk format at `new_path`, `path` is moved there, and the real open — which
+/// converts the file — is returned. `Err(Ok(text))`: the harness could not produce the file;
+/// `Err(Err(e))`: the store did not open.
+pub fn reopen_through_old_format(path: &mut std::path::PathBuf, new_path: std::path::PathBuf) -> std::result::Result<iroh_docs::store::Store, std::result::Result<String, anyhow::Error>> {
+    if let Err(e) = write_old_format(path, &new_path, Shape::default()) {
+        return Err(Ok(format!("writing an old-format file failed: {e:?}")));
+    }
+    if !is_refused_by_current_redb(&new_path) {
+        return Err(Ok("the old-format file is not refused by the current redb".into()));
+    }
+    *path = new_path;
+    iroh_docs::store::Store::persistent(&*path).map_err(Err)
+}
